@@ -140,7 +140,7 @@ def run_unit(path, tier="quick", overlay=None, tag=""):
     outs = []
     if harnesses:
         outs.append(one(harnesses[0]))
-        with cf.ThreadPoolExecutor(max_workers=4) as ex:
+        with cf.ThreadPoolExecutor(max_workers=int(os.environ.get("VERIF_KANI_JOBS", "6"))) as ex:
             outs += list(ex.map(one, harnesses[1:]))
     res.cmd = "cargo kani %s --harness <name>  (crate generated from %s)" % (" ".join(flags), os.path.basename(path))
     for h, out, dt in outs:
